@@ -298,6 +298,11 @@ def run_stream(chk, cases, tag, model=True):
     traces = CS.run_traces([f["case"] for f in failing], tag) if (failing and model) else [[] for _ in failing]
     for f, t in zip(failing, traces):
         f["keys"] = finding_keys(t)
+        # the real converter names the union type it has no handler for: attribute the failure to it even without a model trace
+        for u in (real[f["index"]].get("no_handler") or []):
+            k = "union=%s|leaf=no-handler" % u.replace(" ", "")
+            if k not in f["keys"]:
+                f["keys"].append(k)
         if f["case"].get("kind") == "alias-target" and not f["keys"]:
             f["keys"] = ["alias-target=%s" % f["case"]["target"]]
     return verdict, real, failing
@@ -361,7 +366,19 @@ def check_property(chk, prop, streams, extra_gen=()):
         p = V.run_py("x_known.py", [kn])
         chk.obligation("translate:x_known", p.returncode == 0, (p.stdout + p.stderr)[-200:])
         if ok and p.returncode == 0:
-            proved, f2 = V.prove(chk, prop, [kn] + [os.path.join(V.GEN, g) for g in extra_gen])
+            proved, f2 = V.prove(chk, prop, [kn] + [os.path.join(V.GEN, g) for g in extra_gen], extra_props=("Cover",))
+            for n in V.theorems_in(os.path.join(V.PROPS_OUT, "Cover.v")):
+                if not any(x[0] == "proof" and x[1].startswith("Cover.") for x in f2):
+                    chk.obligation("Cover." + n, True)
+            try:
+                ce = json.load(open(os.path.join(V.VERIF, "cover_expected.json")))
+                chk.extra["proved_roundtrip_coverage"] = {
+                    "theorem": "Cover.covered_parse_roundtrip (LSP.HookFrag.covered_roundtrip): for every covered annotation P and every Python-valid JSON value j: structure parses j into a value of type P that unstructures to j up to null-valued members",
+                    "classes_covered_expected": len(ce["base_classes"]) - len(ce["uncovered_classes"]), "classes_total": len(ce["base_classes"]),
+                    "uncovered_classes_expected": ce["uncovered_classes"],
+                    "pinned_by": "Cover.cover_not_shrunk (a base class / hooked union that leaves the covered set breaks the proof)"}
+            except Exception:
+                pass
             fails += f2
             if not proved:
                 try:
@@ -428,6 +445,7 @@ def check_property(chk, prop, streams, extra_gen=()):
                        "input": {"target": f["case"]["target"], "json": f["case"]["input"], "site": f["case"].get("site")}, "what": mine,
                        "missing_handlers": chk.extra.get("missing_handlers"),
                        "dispatch_trace_keys": keys, "others": [{"site": u[0]["case"].get("site"), "what": u[1][0][:120]} for u in unknown[1:15]],
+                       "all_unlisted": [{"site": u[0]["case"].get("site"), "target": u[0]["case"]["target"], "keys": u[2]} for u in unknown[:400]],
                        "broken": [x[:2] for x in fails]})
     elif fails:
         chk.violation({"property": prop, "kind": "obligation no longer checks", "broken": [{"what": a, "name": b, "detail": c} for a, b, c in fails],
